@@ -3591,7 +3591,6 @@ type typeStringCall struct {
 	pos token.Pos
 }
 
-
 // constLeaves: a composite literal whose elements are constant expressions or composite literals of the same kind.
 func constLeaves(info *types.Info, cl *ast.CompositeLit) bool {
 	for _, el := range cl.Elts {
